@@ -1797,3 +1797,172 @@ class CountStates:
             if self.assume(t['cond'], si == 0, S):
                 out.add(self._refreeze(S))
         return frozenset(out) if out else None
+
+
+# --------------------------------------------------------------------------
+# value ranges of file-scope selectors (iteration 4)
+# --------------------------------------------------------------------------
+
+_BOOL_OPS = ('==', '!=', '<', '>', '<=', '>=', '&&', '||')
+
+
+def _const_values(x, depth=0):
+    """the finite set of integers expression x can evaluate to, or None"""
+    x = strip(fold(x)) if isinstance(x, dict) else x
+    if not isinstance(x, dict) or depth > 6:
+        return None
+    k = x.get('k')
+    if k == 'int':
+        return {x['v']}
+    if k == 'null':
+        return {0}
+    if k in ('load', 'cast', 'paren') and isinstance(x.get('e'), dict) and '*' not in str(x.get('to', '')):
+        return _const_values(x['e'], depth + 1)
+    if k == 'cond':
+        a, b = _const_values(x['a'], depth + 1), _const_values(x['b'], depth + 1)
+        return None if a is None or b is None else a | b
+    if (k == 'bin' and x.get('op') in _BOOL_OPS) or (k == 'un' and x.get('op') == '!'):
+        return {0, 1}
+    return None
+
+
+def selector_values(prog, path):
+    """Every value the file-scope scalar spelled `path` (a variable with internal linkage, or a member selected with
+    `.` from one) can hold at run time: its static initialiser (0 when there is none) and the constants the program
+    stores into it -- provided the object's address is never taken and every store to it is in view and stores a
+    constant.  None when that cannot be established (the range is then unknown, nothing is concluded)."""
+    cache = prog.__dict__.setdefault('_h08_selector_values', {})
+    if path in cache:
+        return cache[path]
+    cache[path] = None
+    root = path.split('.', 1)[0]
+    sub = path.split('.')[1:]
+    decls = [g for key, g in prog.globals.items() if isinstance(g, dict) and g.get('name', key.split(':')[-1]) == root
+             and not g.get('extern_decl')]
+    if not decls or not all(g.get('static') for g in decls) or any('*' in (g.get('type') or '') or '[' in (g.get('type') or '') for g in decls):
+        return None
+    vals = set()
+    for g in decls:
+        init = g.get('init')
+        for fld in sub:
+            if isinstance(init, dict) and init.get('k') == 'init' and isinstance(init.get('fields'), dict):
+                init = init['fields'].get(fld)
+            elif init is not None:
+                return None
+        if init is None:
+            vals.add(0)
+        else:
+            v = _const_values(init)
+            if v is None:
+                return None
+            vals |= v
+    for f in prog.all_funcs():
+        for e in f.pristine().events():
+            for x in walk(e):
+                if x.get('k') == 'addr':
+                    y = strip(x['e'])
+                    while isinstance(y, dict) and y.get('k') == 'member' and not y.get('arrow'):
+                        y = strip_load(y['base'])
+                    if isinstance(y, dict) and y.get('k') == 'var' and y.get('vk') in ('global', 'staticlocal') and y.get('name') == root:
+                        return None
+    for (f, e) in prog.global_writers(root):
+        l = canon(strip(e['lhs']))
+        if l != path:
+            if l == root or path.startswith(l + '.') or l.startswith(path + '.') or '[' in l:
+                return None            # the enclosing aggregate is overwritten as a whole
+            continue                   # another member of the same aggregate
+        v = _const_values(e['rhs']) if e.get('op') == '=' and 'rhs' in e else None
+        if v is None:
+            return None
+        vals |= v
+    if len(vals) > 16:
+        return None
+    cache[path] = frozenset(vals)
+    return cache[path]
+
+
+def prune_by_selector_range(prog, g, max_rounds=4):
+    """Removes from g (a private clone) the branch edges that no value of a file-scope selector can take: the edge of
+    `case c` / of `sel == c` when c is not in the selector's range (selector_values) narrowed by the comparisons that
+    hold on every path to the branch, and the `default` / fall-off edge when every remaining value has its own case.
+    This is what makes a `switch` without default over a two-valued mode variable as exhaustive as if / else.
+    Returns the number of edges removed."""
+    from ..analyses import holding
+    removed = 0
+    for _ in range(max_rounds):
+        hd = holding(g, user_call_kills=False)
+        changed = False
+        for b, blk in g.blocks.items():
+            t = blk.term
+            if not t or t.get('cond') is None or len(blk.succ) < 2 or t.get('cls') == 'MethodDispatch':
+                continue
+            held_atoms = hd.get((b, len(blk.events)))
+            if held_atoms is None:
+                continue
+
+            def feasible(edge_atoms):
+                """False when some selector with a known range has no value that satisfies what holds here and the edge"""
+                by_sel = {}
+                for (op, lc, rc) in edge_atoms:
+                    by_sel.setdefault(lc, []).append((op, rc))
+                for lc, mine in by_sel.items():
+                    if _global_key_of_text(g, lc) is None:
+                        continue
+                    V = selector_values(prog, lc)
+                    if V is None:
+                        continue
+                    cons = mine + [(a[0], a[2]) for a in held_atoms if a[1] == lc]
+                    cons = [(op, int(rc)) for (op, rc) in cons if op in _PYOP and isinstance(rc, str) and rc.lstrip('-').isdigit()]
+                    if not any(all(_PYOP[op](v, n) for (op, n) in cons) for v in V):
+                        return False
+                return True
+            keep = list(range(len(blk.succ)))
+            if t.get('cls') == 'SwitchStmt':
+                cases = t.get('cases') or []
+                if len(cases) != len(blk.succ):
+                    continue
+                lc = canon(t['cond'])
+                ints = [cv for cv in cases if isinstance(cv, int)]
+                keep = []
+                for si, cv in enumerate(cases):
+                    if isinstance(cv, int):
+                        ok = feasible([('==', lc, str(cv))])
+                    elif cv == 'default':
+                        ok = feasible([('!=', lc, str(c)) for c in ints])
+                    else:
+                        ok = True
+                    if ok:
+                        keep.append(si)
+                if keep and len(keep) < len(blk.succ):
+                    removed += len(blk.succ) - len(keep)
+                    blk.succ = [blk.succ[si] for si in keep]
+                    if len(keep) == 1:
+                        blk.term = {'cls': 'Pruned', 'loc': t.get('loc'), 'pruned': 'case %s' % cases[keep[0]]}
+                    else:
+                        blk.term = dict(t, cases=[cases[si] for si in keep])
+                    changed = True
+            elif len(blk.succ) == 2:
+                keep = [si for si in (0, 1)
+                        if feasible([(op, lc, rc) for (op, lc, rc, l, r) in norm_cond(t['cond'], si == 0)])]
+                if len(keep) == 1:
+                    removed += 1
+                    blk.succ = [blk.succ[keep[0]]]
+                    blk.term = dict(t, cls='Pruned', pruned=('true' if keep[0] == 0 else 'false'))
+                    blk.term.pop('cond', None)
+                    changed = True
+        g._preds = None
+        if not changed:
+            break
+    return removed
+
+
+def _global_key_of_text(g, text):
+    """`text` is the spelling of a file-scope scalar that g reads or tests"""
+    paths = g.__dict__.get('_h08_global_paths')
+    if paths is None:
+        paths = global_paths(g)
+        try:
+            g.__dict__['_h08_global_paths'] = paths
+        except Exception:
+            pass
+    return text if text in paths else None
